@@ -129,3 +129,32 @@ Proof.
   - destruct (take _ rest) as [[x y]|]; exact I.
   - unfold maxBlockSize. change bgzf_MaxBlockSize with 65536. rewrite andb_true_iff, !Z.leb_le. lia.
 Qed.
+
+(* --------------------------------------------------------------- Reader.Seek *)
+
+(** Seek never reaches block.seek on a block without data: either the guard
+    (as translated from the source) sends it to the fetch, or the block has data. *)
+Lemma reader_seek_safe st off hit ok sk : safe (snd (reader_seek st off hit ok sk)).
+Proof.
+  unfold reader_seek, c11_seek_guard.
+  destruct (negb (off =? cur_base st) || negb (cur_has st)) eqn:G.
+  - destruct hit; [unfold block_seek; simpl; destruct sk; exact I|].
+    destruct ok; [unfold block_seek; simpl; destruct sk; exact I|exact I].
+  - apply orb_false_iff in G as [_ G]. apply negb_false_iff in G.
+    unfold block_seek. rewrite G. simpl. destruct sk; exact I.
+Qed.
+
+(** Every history of Seek calls, from every state of the current block (in
+    particular after a failed fetch), with every outcome of the cache, the fetch
+    and the in-block seek. *)
+Lemma seek_history_safe h : forall st, safe (seek_history st h).
+Proof.
+  induction h as [|[[[off hit] ok] sk] t IH]; intros st; cbn [seek_history]; [exact I|].
+  pose proof (reader_seek_safe st off hit ok sk) as S.
+  destruct (reader_seek st off hit ok sk) as [st' [u|e|w|]]; simpl in S; try contradiction; apply IH.
+Qed.
+
+(** Without the hasData part of the guard the second Seek to a failed block panics. *)
+Lemma seek_without_hasdata_guard_panics :
+  is_panic (snd (block_seek {| cur_base := 100; cur_has := false |} true)) = true.
+Proof. reflexivity. Qed.
